@@ -126,6 +126,8 @@ func (r *runner) restoreVictim() error {
 	return nil
 }
 
+func hexString(b []byte) string { return hex.EncodeToString(b) }
+
 func blockHex(blk *block.Block) string {
 	raw, err := rlp.EncodeToBytes(blk)
 	if err != nil {
